@@ -1,7 +1,11 @@
 package checks
 
 import (
+	"bytes"
+	"compress/zlib"
+	"encoding/binary"
 	"encoding/json"
+	"hash/crc32"
 	"fmt"
 	"math"
 	"os"
@@ -22,6 +26,11 @@ type c18Case struct {
 	Other  gen.TableSpec `json:"other"`
 	Muts   []gen.Mut     `json:"muts"`
 	FixCRC bool          `json:"fix_crc"`
+	// LogMuts are applied to the inflated content of the table's last log block, which
+	// is then deflated again and put back (block_len, log index offset and CRC adjusted):
+	// the only way damage reaches the log record decoder behind the zlib checksum.
+	LogMuts    []gen.Mut `json:"log_muts,omitempty"`
+	LogKeepLen bool      `json:"log_keep_len,omitempty"` // leave the old block_len in place
 	Raw    Hex           `json:"raw,omitempty"` // used by the native fuzz target: bytes given directly
 }
 
@@ -35,7 +44,79 @@ func genC18(t *rapid.T) c18Case {
 	c.Other = gen.DrawTableWith(t, c.Table.Cfg, c.Table.Max+1, c.Table.Max+3, gen.TableOpts{MaxRefs: 10, MaxLogs: 4, HashPoolMax: 2})
 	c.Muts = gen.DrawMuts(t, 4)
 	c.FixCRC = rapid.IntRange(0, 5).Draw(t, "fixCRC") != 0
+	if len(c.Table.Logs) > 0 && rapid.IntRange(0, 2).Draw(t, "logEdit") == 1 {
+		c.LogMuts = gen.DrawMuts(t, 3)
+		c.LogKeepLen = rapid.IntRange(0, 3).Draw(t, "logKeepLen") == 3
+		if rapid.Bool().Draw(t, "onlyLog") {
+			c.Muts = nil
+			c.FixCRC = true
+		}
+	}
 	return c
+}
+
+// relog rewrites the last log block of a valid table with muts applied to its
+// inflated content.
+func relog(valid []byte, cfg gen.Cfg, muts []gen.Mut, keepLen bool) ([]byte, bool) {
+	return relogWith(valid, cfg, keepLen, func(inner []byte, targets, vt []int) []byte {
+		return gen.Apply(inner, nil, targets, muts, false, 0, gen.Redirect{Extra: vt})
+	})
+}
+
+func relogWith(valid []byte, cfg gen.Cfg, keepLen bool, edit func(inner []byte, targets, vt []int) []byte) ([]byte, bool) {
+	f := specdec.Decode(valid, cfg.HashSize(), !cfg.Unaligned)
+	var b *specdec.Block
+	for i := range f.Blocks {
+		if f.Blocks[i].Type == 'g' {
+			b = &f.Blocks[i]
+		}
+	}
+	hdr := cfg.HeaderSize()
+	ftr := hdr + 44
+	if b == nil || len(b.Content) == 0 || len(valid) < hdr+ftr {
+		return valid, false
+	}
+	hoff := 0
+	if b.Off == 0 {
+		hoff = hdr
+	}
+	inner := append([]byte{}, b.Content[hoff+4:]...)
+	var vt, targets []int
+	for _, v := range b.Varints {
+		if v >= hoff+4 {
+			vt = append(vt, v-hoff-4)
+		}
+	}
+	targets = append(targets, vt...)
+	for i := 1; i <= 2+3*minI(b.Restarts, 3) && i <= len(inner); i++ {
+		targets = append(targets, len(inner)-i)
+	}
+	edited := edit(inner, targets, vt)
+	var z bytes.Buffer
+	zw := zlib.NewWriter(&z)
+	zw.Write(edited)
+	zw.Close()
+	zstart := int(b.Off) + hoff + 4
+	zend := int(b.Off) + int(b.Occupied)
+	if zstart > zend || zend > len(valid)-ftr {
+		return valid, false
+	}
+	out := append([]byte{}, valid[:zstart]...)
+	out = append(out, z.Bytes()...)
+	out = append(out, valid[zend:]...)
+	if !keepLen {
+		n := len(edited) + hoff + 4
+		lp := int(b.Off) + hoff + 1
+		out[lp], out[lp+1], out[lp+2] = byte(n>>16), byte(n>>8), byte(n)
+	}
+	delta := z.Len() - (zend - zstart)
+	fs := len(out) - ftr
+	lip := fs + hdr + 32 // log index offset
+	if v := binary.BigEndian.Uint64(out[lip:]); v > b.Off {
+		binary.BigEndian.PutUint64(out[lip:], uint64(int64(v)+int64(delta)))
+	}
+	binary.BigEndian.PutUint32(out[len(out)-4:], crc32.ChecksumIEEE(out[fs:len(out)-4]))
+	return out, true
 }
 
 // structuralTargets lists the offsets of bytes that steer the decoders.
@@ -118,7 +199,18 @@ func redirects(data []byte, cfg gen.Cfg) []gen.Redirect {
 				out = append(out, r)
 			}
 		}
-		// the key varints of the first record of every uncompressed block
+		// every varint field of the first and last records of every uncompressed block
+		if b.Type != 'g' {
+			var vs []int
+			for j, v := range b.Varints {
+				if j < 24 || j >= len(b.Varints)-6 {
+					vs = append(vs, int(b.Off)+v)
+				}
+			}
+			if len(vs) > 0 {
+				out = append(out, gen.Redirect{PosOff: vs[0], PosLen: 0, Extra: vs[1:]})
+			}
+		}
 		if b.Type != 'g' {
 			first := int(b.Off) + 4
 			if b.Off == 0 {
@@ -326,6 +418,12 @@ func propC18(c c18Case, o *Obs) error {
 			return nil
 		}
 		other, _, _, _ = WriteTable(c.Other)
+		if len(c.LogMuts) > 0 {
+			var did bool
+			if valid, did = relog(valid, c.Table.Cfg, c.LogMuts, c.LogKeepLen); did {
+				o.Class("log-block-recompressed")
+			}
+		}
 		targets := structuralTargets(valid, c.Table.Cfg)
 		data = gen.Apply(valid, other, targets, c.Muts, c.FixCRC, c.Table.Cfg.HeaderSize(), redirects(valid, c.Table.Cfg)...)
 	}
@@ -345,6 +443,9 @@ func propC18(c c18Case, o *Obs) error {
 	}
 	for _, m := range c.Muts {
 		o.Class(fmt.Sprintf("mut-kind-%d", m.Kind))
+	}
+	for _, m := range c.LogMuts {
+		o.Class(fmt.Sprintf("log-mut-kind-%d", m.Kind))
 	}
 	return nil
 }
@@ -418,9 +519,24 @@ func FuzzReader(f *testing.F) {
 	}
 	f.Add([]byte("REFT\x01"))
 	orig := seeds[2]
+	// Inputs starting with 'L' (never a table: the magic is REFT) are taken as the inflated
+	// content of a log block and wrapped into an otherwise valid table, so that coverage
+	// guidance reaches the log record decoder, which sits behind the zlib checksum.
+	base, _, _, _ := WriteTable(orig)
+	wrap := func(inner []byte) []byte {
+		d, _ := relogWith(base, orig.Cfg, false, func([]byte, []int, []int) []byte { return inner })
+		return d
+	}
+	relogWith(base, orig.Cfg, false, func(inner []byte, _, _ []int) []byte {
+		f.Add(append([]byte{'L'}, inner...))
+		return inner
+	})
 	f.Fuzz(func(t *testing.T, data []byte) {
 		if len(data) > 1<<16 {
 			return
+		}
+		if len(data) > 0 && data[0] == 'L' {
+			data = wrap(data[1:])
 		}
 		if err := checkDamaged(data, orig, nil); err != nil {
 			if dir := os.Getenv("VERIF_FUZZ_OUT"); dir != "" {
